@@ -1,4 +1,4 @@
-INIT MCInitThorough
+INIT ObsInitTogether
 NEXT Next
 CONSTANTS Configs = {}
   CountBasedCheck = FALSE
@@ -6,7 +6,7 @@ CONSTANTS Configs = {}
   LoadEveryEngine = FALSE
   LoadOnlyOwnTargets = FALSE
   MatchWholeSecond = FALSE
-  DedupIgnoresSensor = FALSE
+  DedupIgnoresSensor = TRUE
   CrashOnDuplicate = FALSE
   KeepDuplicates = FALSE
   CreateMissingTables = FALSE
